@@ -314,6 +314,42 @@ def part_delayhist(tier, seed, workdir, binary, only=None):
     return res
 
 
+
+# ------------------------------------------------------------------------------------------ part: commitments (C07)
+
+def part_commit(tier, seed, workdir, binary, only=None):
+    d = vk.scratch_spec(SPEC_DIR)
+    res = {"mc": {}}
+    try:
+        if only is None:
+            deep = tier != "quick"
+            need = {"v1": ["same-fields", "one-field-differs", "uncommitted-field-differs", "negative-control-collides"],
+                    "payload": ["same-fields", "one-field-differs", "boundary-moved", "negative-control-collides"],
+                    "v2": ["same-fields", "one-field-differs", "uncommitted-field-differs", "order-differs", "negative-control-collides"],
+                    "ack": ["same-fields", "one-field-differs", "boundary-moved", "order-differs", "negative-control-collides"]}
+
+            def one(kind):
+                return kind, mc(d, "MC_Commitments", "C07:Commitments_" + kind, dict(KIND=kind, DEEP=deep, HLEN=2, WLEN=2),
+                                invariants=["Injective", "FixedLength"], need=need[kind], workers=3, timeout=3000)
+            for kind, r in vk.pmap(one, ["v1", "payload", "v2", "ack"], 2 if tier == "quick" else 4):
+                res["mc"]["C07:Commitments(%s)" % kind] = r
+            cases, counts = gen_cases(d, "Gen_Commitments", seed, tier, os.path.join(workdir, "commit_cases.ndjson"))
+            res["generated"] = counts
+        else:
+            cases = only
+        lines = drive_cases(binary, cases, workdir, "commit", nshards=2 if tier == "quick" else 4)
+        fails = validate(d, "Trace_Commit", lines, workdir, "commit", nshards=2 if tier == "quick" else 4)
+    finally:
+        shutil.rmtree(d, ignore_errors=True)
+    cov = collections.Counter()
+    sig = set()
+    for ln in lines:
+        cov["commit:%s:%s" % (ln["fn"], ln["res"])] += 1
+        js = json.dumps(ln["in"], sort_keys=True)
+        sig.add((ln["fn"], js))
+    res.update({"lines": lines, "fails": fails, "coverage": cov, "sigs": {"C07": len(sig)}, "cases": {c["id"]: c for c in cases}})
+    return res
+
 # ------------------------------------------------------------------------------------------ BigNat lemma (shared by all parts)
 
 def part_bignat(tier, seed, workdir, binary, only=None):
@@ -336,9 +372,11 @@ PARTS = collections.OrderedDict([
     ("heights", (part_heights, "C17")),
     ("delay", (part_delay, "C19")),
     ("delayhist", (part_delayhist, "C19")),
+    ("commit", (part_commit, "C07")),
 ])
 
 FLOORS = {
+    "C07": ["commit:CommitV1:ok", "commit:CommitV2:ok", "commit:AckV1:ok", "commit:AckV2:ok"],
     "C17": ["heights:HCmp:-1", "heights:HCmp:0", "heights:HCmp:1", "heights:HFmt:ok", "heights:Elapsed:elapsed", "heights:Elapsed:not-elapsed"],
     "C19": ["delay:BlockDelay:exact-division", "delay:BlockDelay:with-remainder", "delay:BlockDelay:p-zero", "delay:BlockDelay:td-above-2^53",
             "delay:DelayTM:accepted", "delay:DelayTM:rejected", "delay:DelayConn:accepted", "delay:DelayConn:rejected",
